@@ -265,12 +265,61 @@ def work_order(scripts):
     return {"n": len(scripts), "requests": n_req, "violations": res}
 
 
+O_L0 = "rt/level0_grid/pixel_is_level8_tile_centre"
+
+
+def _check_level0(T, coordsys):
+    """Depth 0: the grid handed to the sampler for the single level-0 tile (observed through the public
+    sample_layer) must put the centre of tile (8, col, row) at pixel (row, col)."""
+    import tempfile
+    import shutil
+    from toasty.pyramid import PyramidIO
+    out = []
+    w0 = {"coordsys": coordsys, "n": 0, "x": 0, "y": 0}
+    seen = []
+
+    def sampler(lon, lat):
+        seen.append((np.array(lon, dtype=float), np.array(lat, dtype=float)))
+        return np.zeros(np.shape(lon), dtype=np.float32) + 1
+
+    d = tempfile.mkdtemp(prefix="c05_l0_")
+    try:
+        try:
+            T.sample_layer(PyramidIO(d, default_format="npy"), sampler, 0, coordsys=T.ToastCoordinateSystem(coordsys), parallel=1)
+        except Exception as e:
+            out.append(("rt/level0_grid/raises", dict(w0, error=repr(e)), "sample_layer(depth 0) raised %r" % (e,)))
+            return out
+    finally:
+        shutil.rmtree(d, ignore_errors=True)
+    if len(seen) != 1 or seen[0][0].shape != (256, 256):
+        out.append(("rt/level0_grid/shape", dict(w0, calls=len(seen)), "expected one sampler call with (256, 256) grids, got %d" % len(seen)))
+        return out
+    lons, lats = seen[0]
+    v = S.ll2v(lons, lats)
+    C = np.zeros((256, 256, 3))
+    for (tx, ty) in ((0, 0), (1, 0), (0, 1), (1, 1)):
+        q, inc = S.tile_quad(coordsys, 1, tx, ty)
+        C[128 * ty:128 * ty + 128, 128 * tx:128 * tx + 128] = S.quad_pixel_centres(q, inc, 7)
+    dd = S.chord(v, C)
+    bad = ~(dd <= TOL)
+    if bad.any():
+        i, j = np.unravel_index(int(np.argmax(np.where(np.isnan(dd), np.inf, dd))), dd.shape)
+        out.append((O_L0, dict(w0, i=int(i), j=int(j), dist=float(dd[i, j]), n_bad=int(bad.sum())),
+                    "pixel (row %d, col %d) of the level-0 grid is %.3g (chord) away from the centre of tile (8,%d,%d); %d of 65536 pixels differ"
+                    % (i, j, dd[i, j], j, i, int(bad.sum()))))
+    return out
+
+
 def work(coordsys, tiles, seed):
     """Isolated worker: check a list of [n, x, y]."""
     from toasty import toast as T
     from toasty.pyramid import Pos
     res = []
     for k, (n, x, y) in enumerate(tiles):
+        if int(n) == 0:
+            for (obl, wit, msg) in _check_level0(T, coordsys):
+                res.append([obl, wit, msg])
+            continue
         for (obl, wit, msg) in _check_one(T, Pos, coordsys, int(n), int(x), int(y), seed * 1000003 + k):
             res.append([obl, wit, msg])
     return {"n": len(tiles), "violations": res}
@@ -298,6 +347,7 @@ def run(ctx):
     d_exh = 6 if ctx.thorough else 4
     n_rand = 2500 if ctx.thorough else 400
     d_max = 20
+    ctx.bound("the level-0 grid (as handed to the sampler by sample_layer(depth 0)), both coordinate systems, all 65536 pixels")
     ctx.bound("both coordinate systems; all tiles of levels 1..%d and %d random tiles of depth %d..%d per system; all 65536 pixels "
               "of each compared with the centres of the documented tiles 8 levels deeper (chord <= %g), inside-tile margin and "
               "corner latitude range (+-%g rad)" % (d_exh, n_rand, d_exh + 1, d_max, TOL, TOL))
@@ -309,7 +359,7 @@ def run(ctx):
     jobs = []
     nworkers = max(2, min(14, (os.cpu_count() or 4) - 2))
     for coordsys in S.COORDSYS:
-        tiles = [[n, x, y] for n in range(1, d_exh + 1) for x in range(1 << n) for y in range(1 << n)]
+        tiles = [[0, 0, 0]] + [[n, x, y] for n in range(1, d_exh + 1) for x in range(1 << n) for y in range(1 << n)]
         for i in range(n_rand):
             tiles.append(_random_tile(rng, d_exh + 1, d_max, i % 4))
         # interleaved chunks have about equal cost
@@ -394,6 +444,11 @@ def replay(obligation, witness):
         return True, "every answer of the recorded call sequence is the documented pixel grid of its own request"
     from toasty import toast as T
     from toasty.pyramid import Pos
+    if int(witness.get("n", 1)) == 0:
+        res = _check_level0(T, witness["coordsys"])
+        if res:
+            return False, res[0][2]
+        return True, "all 65536 pixels of the level-0 grid are the centres of the level-8 tiles"
     extra = [(int(witness["i"]), int(witness["j"]))] if "i" in witness and "j" in witness else []
     res = _check_one(T, Pos, witness["coordsys"], int(witness["n"]), int(witness["x"]), int(witness["y"]), 0, extra)
     same = [r for r in res if r[0] == obligation]
